@@ -103,6 +103,9 @@ Validated(cfg) == EffMode(cfg) = "REQUIRED" \/ Pinned(cfg)
 
 \* A caller context that itself checks hostnames combined with cert_reqs=NONE is a configuration
 \* conflict: Python's ssl refuses it (ValueError) before a single TLS byte is written.
+\* LATITUDE: the statement does not say how such a conflict is resolved -- refusing the configuration
+\* (nothing sent, exception type unconstrained) and honouring the explicit cert_reqs=NONE are both
+\* inside it; the Rules only insist that a refusal sends nothing and leaves no socket open.
 Conflict(cfg) == cfg.backend = "ssl" /\ cfg.ctx \in {"default_like", "urllib3_ctx"} /\ cfg.reqs = "NONE"
 
 -----------------------------------------------------------------------------
@@ -171,12 +174,15 @@ Expect(cfg, srv) == IF Conflict(cfg) THEN "refused"
 (*   o.warned   InsecureRequestWarning was emitted                                             *)
 
 R_SentImpliesDemandedPassed(cfg, srv, o) ==
-    /\ o.sent => ~MustBlock(cfg, srv) /\ ~Conflict(cfg)
+    /\ o.sent => ~MustBlock(cfg, srv)
     /\ o.proxied => ~ProxyMustBlock(cfg, srv)
     /\ o.resp => o.sent
+    /\ o.exc = "config" => ~o.sent
 
 R_FailedCheckRaisesSSLErrorAndCloses(cfg, srv, o) ==
-    (MustBlock(cfg, srv) /\ ~Conflict(cfg)) => (o.exc = "ssl" /\ o.closed /\ ~o.resp)
+    /\ MustBlock(cfg, srv) => ((o.exc = "ssl" /\ o.closed /\ ~o.resp)
+                                \/ (Conflict(cfg) /\ o.exc = "config" /\ o.closed /\ ~o.resp))
+    /\ o.exc = "config" => (o.closed /\ ~o.resp)
 
 R_UnverifiedWarnedAndNotReportedVerified(cfg, srv, o) ==
     (o.sent /\ ~Validated(cfg)) => (o.warned /\ ~o.verified)
